@@ -18,7 +18,8 @@ def check(model, R, tier):
         R.ob('C02.CATALOGUE', o.qual, 'template instance', True, '', o.func.loc)
     R.analysed['ops'] = [o.name for o in ops]
     T.check_ops(model, R, ops, 'C02')
-    T.check_cover(model, R, ops, 'C02')
+    from sa.rules_flags import check_flags
+    check_flags(model, R, 'C02', 'synapgrad.nn.functional', rules=('COVER',))
     K.check_glin(model, R, ops, 'C02')
     kernels = [model.func(d) for d in sorted({d for o in ops for d, _, _ in o.bwd_calls})]
     R.analysed['backward_kernels'] = [k.qualname for k in kernels]
